@@ -21,7 +21,7 @@ const FRAME_MUTATIONS: &[&str] = &[
     "unknown_type", "parse_no_terminators", "parse_negative_param_count", "parse_huge_param_count", "bind_no_terminators",
     "bind_negative_counts", "bind_param_len_beyond_frame", "bind_huge_param_count", "describe_empty", "describe_no_terminator",
     "close_empty", "close_no_terminator", "query_no_terminator", "query_embedded_nul", "query_empty_body", "execute_empty",
-    "execute_no_terminator", "execute_without_bind", "bind_without_parse", "sync_only", "copydata_outside_copy", "copydone_outside_copy", "copyfail_outside_copy",
+    "execute_no_terminator", "execute_without_bind", "bind_without_parse", "sync_only", "copydata_outside_copy", "copydone_outside_copy", "copyfail_outside_copy", "bind_after_refused_named_parse",
     "password_message", "flush_only", "function_call", "random_garbage", "terminate_with_body", "many_syncs", "custom_command_huge_number",
     "query_answered_with_non_utf8_error", "parse_answered_with_non_utf8_error",
 ];
@@ -119,6 +119,16 @@ fn hostile_frames(rng: &mut Rng, m: &str) -> Vec<u8> {
         "copydata_outside_copy" => proto::copy_data(b"1\t2\n"),
         "copydone_outside_copy" => proto::copy_done(),
         "copyfail_outside_copy" => proto::copy_fail("stray"),
+        "bind_after_refused_named_parse" => {
+            // a named Parse the server refuses, then Bind/Execute by that name in a later batch
+            let name = format!("bad{}", rng.below(1000));
+            let mut b = proto::parse(&name, &format!("SELECT 1 {}", tag("hostile", &format!("h.perr.{}", rng.below(100000)), "perr")), &[]);
+            b.extend(proto::sync());
+            b.extend(proto::bind("", &name, &[], &[], &[]));
+            b.extend(proto::execute("", 0));
+            b.extend(proto::sync());
+            b
+        }
         "password_message" => proto::password_message(b"md5abcdef\0"),
         "flush_only" => proto::flush(),
         "function_call" => Msg::new(b'F', vec![0, 0, 0, 1, 0, 0, 0, 0, 0, 0]).encode(),
@@ -374,12 +384,63 @@ fn batch(seed: u64, cases: usize, rep: &Report) -> Result<(), String> {
     Ok(())
 }
 
+/// Hostile but well-framed sequences against a pool with replicas: nothing a client sends may get a
+/// server banned (taken out of service for everybody else).
+fn ban_leg(seed: u64, rep: &Report) -> Result<(), String> {
+    let mut rng = Rng::new(seed);
+    let mut cell = Cell::new();
+    let p = cell.add_mock("db.s0.primary.0");
+    let r1 = cell.add_mock("db.s0.replica.1");
+    let r2 = cell.add_mock("db.s0.replica.2");
+    let mut cfg = Cfg::new();
+    let mut pool = PoolCfg::single("db", USER, PASS, 2, vec![cell.server(p, "primary"), cell.server(r1, "replica"), cell.server(r2, "replica")]);
+    pool.set("default_role", "\"replica\"");
+    if seed % 2 == 0 {
+        pool.set("prepared_statements_cache_size", "16");
+    }
+    cfg.pools.push(pool);
+    cfg.gset("ban_time", "60");
+    cell.start_pgcat(&cfg, &StartOpts::default()).map_err(|e| format!("start: {:?}", e))?;
+    let mut adm = cell.pg().admin().map_err(|e| format!("admin: {}", e))?;
+    let seqs = ["bind_after_refused_named_parse", "bind_without_parse", "execute_without_bind", "sync_only", "copydata_outside_copy", "copydone_outside_copy", "copyfail_outside_copy", "close_empty", "describe_empty", "many_syncs", "query_empty_body"];
+    for k in 0..12 {
+        let m = *rng.pick(&seqs);
+        let in_txn = rng.chance(1, 2);
+        let mut c = Conn::connect(&cell.addr(), &StartupOpts::new(USER, "db", PASS).app("hostile")).map_err(|e| e.to_string())?;
+        if in_txn {
+            let _ = c.query(&format!("BEGIN {}", tag("hostile", &format!("hb.{}", k), "")), 3000);
+        }
+        let _ = c.send(&hostile_frames(&mut rng, m));
+        let _ = c.drain_to_eof(200);
+        drop(c);
+        sleep_ms(30);
+        rep.count("ban_leg_sequences", 1);
+        let bans = crate::pgcat::admin_rows(&mut adm, "SHOW BANS")?;
+        if !bans.is_empty() {
+            rep.violation(
+                &format!("C11|server_banned_because_of_client_input|mutation={}|in_transaction={}", m, in_txn),
+                &format!("after the hostile sequence {} ({}) SHOW BANS lists {:?}", m, if in_txn { "inside a transaction" } else { "idle" }, bans.iter().map(|b| format!("{}:{} {}", b.get("host").cloned().unwrap_or_default(), b.get("port").cloned().unwrap_or_default(), b.get("reason").cloned().unwrap_or_default())).collect::<Vec<_>>()),
+                json!({"seed": seed, "log_tail": cell.pg().log_tail(8)}),
+            );
+            return Ok(());
+        }
+        // and well-behaved clients are still served
+        for j in 0..2 {
+            if let Err(e) = canary(&cell, "db", "canary", (k * 10 + j) as u64) {
+                rep.violation(&format!("C11|canary_blocked|ban_leg|mutation={}", m), &format!("after hostile sequence {} a well-behaved client failed: {}", m, e), json!({"seed": seed}));
+                return Ok(());
+            }
+        }
+    }
+    Ok(())
+}
+
 pub fn run(tier: &str) -> i32 {
     let rep = Report::new(
         "C11",
         tier,
         "exploration",
-        "case = protocol state {pre-startup, mid-auth, idle, in transaction, mid-batch, in COPY, admin console} x mutation (14 startup mutations, 39 frame/body/order mutations incl. lengths <4, negative, beyond/below body, 64 MiB declared, unknown types, missing terminators, negative/oversized counts, parameter lengths beyond the frame, embedded NULs, messages in invalid order); after each case: process liveness, a canary transaction on the shared pool_size=1 pool (own correct reply, clean inherited session), a canary on a second pool during the attack, capacity probe and admin console every 10 cases; distinct = distinct (state, mutation) pairs",
+        "case = protocol state {pre-startup, mid-auth, idle, in transaction, mid-batch, in COPY, admin console} x mutation (14 startup mutations, 40 frame/body/order mutations incl. lengths <4, negative, beyond/below body, 64 MiB declared, unknown types, missing terminators, negative/oversized counts, parameter lengths beyond the frame, embedded NULs, messages in invalid order); after each case: process liveness, a canary transaction on the shared pool_size=1 pool (own correct reply, clean inherited session), a canary on a second pool during the attack, capacity probe and admin console every 10 cases; plus a leg on a pool with two replicas where SHOW BANS must stay empty after every hostile but well-framed sequence; distinct = distinct (state, mutation) pairs",
     );
     rep.assume("declared lengths are capped at 64 MiB in verdict-bearing cases; memory exhaustion by larger declared lengths is measured (RSS) but not judged");
     rep.assume("panics confined to the sender's task are allowed by the property; they are catalogued, not judged");
@@ -388,11 +449,13 @@ pub fn run(tier: &str) -> i32 {
     let per = if thorough { 60 } else { 30 };
     let mut rng = Rng::new(rep.seed ^ 0xC11);
     let seeds: Vec<u64> = (0..batches).map(|_| rng.next()).collect();
-    run_parallel(batches, workers(), |i| {
-        if let Err(e) = batch(seeds[i], per, &rep) {
+    let n_ban = if thorough { 64 } else { 16 };
+    run_parallel(batches + n_ban, workers(), |i| {
+        let r = if i < batches { batch(seeds[i], per, &rep) } else { ban_leg(seeds[i - batches] ^ (i as u64) << 7, &rep) };
+        if let Err(e) = r {
             rep.inconclusive(&e);
         }
     });
     rep.sample(json!({"states": STATES, "frame_mutations": FRAME_MUTATIONS.len(), "startup_mutations": STARTUP_MUTATIONS.len()}));
-    rep.finish(&[("canary_transactions_ok", 500), ("capacity_probes_passed", 50)])
+    rep.finish(&[("canary_transactions_ok", 500), ("capacity_probes_passed", 50), ("ban_leg_sequences", 50)])
 }
